@@ -42,7 +42,7 @@ CLAIMED.update({
    note="Cells drawn afterwards carrying the rendition is DRAW's clause (C04)."),
  "C09": dict(level="exploration", ref="DESIGN.md §7 C09",
    technique=SIMQ+"well-formedness invariant evaluated after construction and after every atomic step",
-   text="Grade A: the invariant must survive resizes and API calls landing between any two parser events. Cursor bounds, margins, dirty indices, display() row count (on a copy), colour strings checked after every step of every run.",
+   text="Grade A: the invariant must survive resizes and API calls landing between any two parser events. Cursor bounds, margins, dirty indices, display() row count (on a copy), colour strings checked after every step of every run; 30% of runs under the production wiring P (chunk granularity), the rest under wiring Q (event granularity); for short histories one extra resize is enumerated at every operation boundary.",
    note="All fault kinds on; resize >= 1x1; arguments absent or 0..=9999."),
  "C10": dict(level="fault_enumeration", ref="DESIGN.md §7 C10",
    technique="deterministic simulation (wiring Q) of two screens driven by one parser: the same history with and without display() interposed at seeded / enumerated operation boundaries; model-free twin comparison",
@@ -58,23 +58,23 @@ CLAIMED.update({
    note="Lists with two or more of DECCOLM/DECOM/DECSCNM are judged on the mode set only."),
  "C13": dict(level="exploration", ref="DESIGN.md §7 C13, §8.3 ICH/DCH",
    technique=SIMQ+"ICH/DCH judged by list-splice step relations on the visible row",
-   text="Grade B: hidden cells beyond the edge only show through later edits, paints and grow resizes. Every ICH/DCH judged from the real pre-state; since every later step is judged against the visible pre-state, discarded characters cannot reappear unnoticed.",
-   note=""),
+   text="Grade B: hidden cells beyond the edge only show through later edits, paints and grow resizes. Every ICH/DCH judged from the real pre-state; since every later step is judged against the visible pre-state, discarded characters cannot reappear unnoticed. Parser path: the ICH/DCH events the parser delivers must equal the reference recogniser's.",
+   note="Vacated cells are the current blank (default attributes, reverse iff DECSCNM)."),
  "C14": dict(level="exploration", ref="DESIGN.md §7 C14, §8.3 SAVE/RESTORE",
    technique=SIMQ+"DECSC/DECRC judged by step relations over the full savepoint stack",
-   text="Grade B. save^k ... restore^m around movement, SGR, charsets, mode changes, margins and resizes (which push/pop themselves): LIFO, clamping, one-way DECOM/DECAWM re-enable, empty-stack behaviour; grid, margins, tab stops unchanged.",
+   text="Grade B. save^k ... restore^m around movement, SGR, charsets, mode changes, margins and resizes (which push/pop themselves): LIFO, clamping, one-way DECOM/DECAWM re-enable, empty-stack behaviour; grid, margins, tab stops unchanged. History oracle: a shadow stack of what each DECSC captured must equal the real stack after every operation of every actor.",
    note="Restored pending-wrap column may be C or C-1."),
  "C15": dict(level="exploration", ref="DESIGN.md §7 C15",
    technique="deterministic simulation (wiring Q): at RIS a second Screen::new is spawned and every later step (parser events and foreign actors) is applied to both; model-free twin comparison",
-   text="Grade B. After arbitrary histories (faults, all actors, RIS possibly mid-sequence) the state equals a new screen's (savepoints excepted, all rows dirty) and stays equal under the continuation until a DECRC.",
-   note=""),
+   text="Grade B. After arbitrary histories (faults, all actors, RIS possibly mid-sequence) the state equals a new screen's (savepoints excepted, all rows dirty) and stays equal under the continuation until a DECRC. Second twin under wiring P: a fresh parser + new screen started at every RIS at which the stream reader is in its ground state must stay equal too (catches state surviving RIS outside the screen). Parser path: every ESC c must reach the screen as a reset.",
+   note="One parser drives both screens in the first twin; the second twin needs the reference recogniser/decoder to know that the stream reader is in its ground state."),
  "C16": dict(level="exploration", ref="DESIGN.md §7 C16, §8.3 RESIZE",
    technique=SIMQ+"asynchronous resizes at arbitrary event boundaries judged by step relation RESIZE",
-   text="Grade A. The Resizer fires between any two parser events (1-4 per run, shrink-then-grow): crop/extend, rows dropped from the top, added area blank, margins reset, cursor inside, all rows dirty, same size = no-op; reappearing content is caught because the added area must be blank.",
-   note="Tab stops after a resize are unconstrained (HT's result is C18's)."),
+   text="Grade A. The Resizer fires between any two parser events (1-4 per run, shrink-then-grow; for short histories one extra resize enumerated at every operation boundary): crop/extend, rows dropped from the top, added area blank, margins reset, cursor inside, all rows dirty, same size = no-op; reappearing content is caught because the added area must be blank. Also owns SM/RM of DECCOLM (the 132-column round trip).",
+   note="Tab stops at or beyond min(old, new width) are unconstrained after a width change; those below it must survive."),
  "C17": dict(level="exploration", ref="DESIGN.md §7 C17",
    technique=SIMQ+"framebuffer oracle: an incremental renderer that repaints only dirty rows must always show the real grid",
-   text="Grade A. The Renderer paints at scheduler-chosen moments; its framebuffer, updated only for rows in dirty, must equal the grid after every paint; dirty indices < lines; screen-wide changes mark every row.",
+   text="Grade A. The Renderer paints at scheduler-chosen moments (between queued parser events under wiring Q, between chunks under wiring P - 30% of runs); its framebuffer, updated only for rows in dirty, must equal the grid after every paint; dirty indices < lines; screen-wide changes mark every row.",
    note="Over-approximation of dirty is never flagged."),
  "C18": dict(level="exploration", ref="DESIGN.md §7 C18, §8.3 HTS/TBC/HT",
    technique=SIMQ+"HTS/TBC/HT and RIS defaults judged by step relations",
@@ -83,7 +83,7 @@ CLAIMED.update({
  "C19": dict(level="exploration", ref="DESIGN.md §7 C19, §8.1",
    technique="deterministic simulation of the stream reader: seeded OSC-heavy streams in seeded chunkings; recorded events vs the reference recogniser, and a model-free twin (same stream without its OSC strings) on the real screen",
    text="Grade C. Title/icon events carry exactly the payload (any text incl. ; \\ ], non-ASCII, ESC x pairs, C0), all three terminators and both introducers, empty payloads, other codes without effect; the payload never reaches the grid or moves the cursor.",
-   note=""),
+   note="Model-free second half: the same stream with its OSC strings cut out must leave the same grid and cursor."),
  "C20": dict(level="exploration", ref="DESIGN.md §7 C20",
    technique=SIMQ+"DEFINE/SHIFT step relations against reference tables, a translation twin for every draw, and the parser path checked against the reference recogniser",
    text="Grade C. G0/G1 designation and SO/SI judged against reference tables (Latin-1 identity, CP437 from Python's codec, DEC graphics typed from the Linux console map, VAX42 golden copy); every draw compared with drawing the reference translation on an identity-table copy; in 8-bit mode designators/shifts must reach the listener, in UTF-8 mode not. (table, byte) pairs hit reported out of 1024.",
